@@ -127,6 +127,11 @@ def boundary_specs(tier):
             out.append(('cells=%d' % n, heap_spec(n)))
         for t in (16777215, 16777216, 8388607, 8388608):
             out.append(('payload=%d' % t, payload_spec_wide(t)))
+    # every cell maximal: 1023 bits and 4 references into a densely shared DAG - the largest average cell size the format
+    # allows (a bound on tot_cells_size derived from the cell count must allow for it), with 1-byte and 2-byte reference indexes
+    for n in (200, 300) + ((1000,) if tier == 'thorough' else ()):
+        out.append(('all-cells-maximal=%d' % n, [{'k': 'o', 'b': [1023, 2, i], 'r': [j for j in (i - 1, i - 2, i - 3, i - 4) if j >= 0]}
+                                                 for i in range(n)]))
     # depth-1023 chain and doubling ladder
     for ladder in (False, True):
         spec = [{'k': 'o', 'b': [3, 2, 1], 'r': []}]
